@@ -451,6 +451,9 @@ pub fn claim_sets() -> Vec<Vec<crate::adapter::ClaimSpec>> {
             C::auto("$ref", json!(7)), C::auto("__proto__", json!(8)), C::auto("0", json!(9)), C::auto("EXP", json!(10)), C::auto("exp ", json!(11)), C::auto("k\"q", json!(12)), C::auto("k\\", json!(13)),
         ],
     ];
+    // members named "" below the top level; a value whose Serialize implementation uses the library itself
+    sets.push(vec![C::auto("obj", json!({"": 1, "a": {"": [], "b": [{"": null}]}})), C::auto("arr", json!([{"": {"": "deep"}}]))]);
+    sets.push(vec![C { key: "delegation".into(), value: json!(null), form: crate::adapter::Form::Native(13) }, C::auto("after", json!(1))]);
     // many claims, given in descending key order
     sets.push((0..64).rev().map(|i| C::auto(&format!("k{:02}", i), json!({"i": i, "s": format!("v{}", i)}))).collect());
     sets
